@@ -377,7 +377,7 @@ pub fn market_case_strategy(cfg: GenCfg, max_assets: usize) -> BoxedStrategy<Mar
             })
             .collect();
         let _ = n;
-        proptest::collection::vec(Union::new_weighted(per_asset), 0..=cfg.max_len).prop_map(move |ops| MarketCase { ticks: ticks.clone(), levels, trading, t0, ops, zero_vols: cfg.zero_vol_pct > 0, direct_ops: cfg.direct_pct > 0 })
+        (proptest::collection::vec(Union::new_weighted(per_asset), 0..=cfg.max_len), prop_oneof![5 => Just(0u64), 2 => any::<u64>(), 1 => Just(u64::MAX)]).prop_map(move |(ops, quiet)| MarketCase { ticks: ticks.clone(), levels, trading, t0, ops, zero_vols: cfg.zero_vol_pct > 0, direct_ops: cfg.direct_pct > 0, quiet })
     })
     .boxed()
 }
@@ -509,7 +509,7 @@ pub fn env_case_strategy(cfg: EnvGenCfg) -> BoxedStrategy<EnvCase> {
         // value that doubles as the empty-side sentinel
         let extreme: u8 = if cfg.offgrid && ext < 14 { 1 + (ext % 2) as u8 } else { 0 };
         let ticks_x = ticks.clone();
-        (step_size_s, proptest::collection::vec(step, 1..=cfg.max_steps)).prop_map(move |(step_size, mut steps)| {
+        (step_size_s, proptest::collection::vec(step, 1..=cfg.max_steps), prop_oneof![5 => Just(0u64), 2 => any::<u64>(), 1 => Just(u64::MAX)]).prop_map(move |(step_size, mut steps, quiet_steps)| {
             if extreme > 0 {
                 for s in steps.iter_mut() {
                     for ins in s.instrs.iter_mut() {
@@ -535,7 +535,7 @@ pub fn env_case_strategy(cfg: EnvGenCfg) -> BoxedStrategy<EnvCase> {
                     s.instrs.truncate(step_size.min(1 << 20) as usize);
                 }
             }
-            EnvCase { kind_assets, levels, ticks: ticks.clone(), t0, step_size, trading, seed, steps, drain, exact_vols }
+            EnvCase { kind_assets, levels, ticks: ticks.clone(), t0, step_size, trading, seed, steps, drain, exact_vols, quiet_steps }
         })
     })
     .boxed()
